@@ -565,13 +565,9 @@ def convert_exec(events, D=DOCUMENTED):
                         per_f[f] = per_f.get(f, 0) + 1
                 acc_stack = [x for x in stack if not x[3] and not x[1]]
                 st['maxdepth'] = max(st['maxdepth'], len(acc_stack))
-                if len(acc_stack) > D['recursion_limit']:
-                    problems.append('nesting depth of accepted executions %d > %d' % (len(acc_stack), D['recursion_limit']))
                 if not r and not isb and not ist:
                     k = sum(1 for x in acc_stack if x[0] == f and not x[2])
-                    if k > D['per_function_recursion_limit']:
-                        problems.append('a definition is %d times on the stack of accepted executions (> %d)'
-                                        % (k, D['per_function_recursion_limit']))
+                    st['max_same_def'] = max(st.get('max_same_def', 0), k)
             else:
                 items.append('(xd XPop false)')
                 if stack:
@@ -580,10 +576,15 @@ def convert_exec(events, D=DOCUMENTED):
                     problems.append('pop_execution on an empty stack (trace not well bracketed)')
         if total_acc > D['total_function_execution_limit']:
             problems.append('%d accepted non-builtin executions > %d' % (total_acc, D['total_function_execution_limit']))
-        for f, c in per_f.items():
-            if c > D['per_function_execution_limit']:
-                problems.append('a definition was executed %d times > %d' % (c, D['per_function_execution_limit']))
+        worst = max(per_f.values()) if per_f else 0
+        if worst > D['per_function_execution_limit']:
+            problems.append('a definition was executed %d times > %d' % (worst, D['per_function_execution_limit']))
         traces.append(g_list(items[:MAXEV], str, 'xev * bool'))
+    if st['maxdepth'] > D['recursion_limit']:
+        problems.append('nesting depth of accepted executions %d > %d' % (st['maxdepth'], D['recursion_limit']))
+    if st.get('max_same_def', 0) > D['per_function_recursion_limit']:
+        problems.append('a definition is %d times on the stack of accepted executions (> %d)'
+                        % (st['max_same_def'], D['per_function_recursion_limit']))
     return traces, sorted(set(problems)), st
 
 
@@ -1728,7 +1729,8 @@ def report(ctx, sig, data, what, per_class=3):
     listed known finding (those are all counted)."""
     known = any(all(sig.get(a) == b for a, b in k['matcher'].items()) for k in ctx.known)
     if not known:
-        key = (sig.get('stream'), sig.get('cls'), sig.get('exc'), (sig.get('what') or '')[:24])
+        key = (sig.get('stream'), sig.get('cls'), sig.get('exc'),
+               __import__('re').sub(r'\d+', '#', sig.get('what') or '')[:40])
         _DEV_SEEN[key] = _DEV_SEEN.get(key, 0) + 1
         if _DEV_SEEN[key] > per_class:
             sup = ctx.cov.setdefault('distribution', {}).setdefault('further_inputs_of_a_reported_class', {})
